@@ -7,14 +7,16 @@ python3 - <<'PY'
 import sys, os
 sys.path.insert(0, "tools")
 import check
-ok, msg = check.build_go()
-if not ok:
-    print(msg); sys.exit(1)
-# regenerate every facts file so that the whole Coq project builds
+# build every property's harness + generator, regenerate every facts file so that the whole Coq project builds
 import importlib
 for fn in sorted(os.listdir("tools/props")):
     if fn.startswith("c") and fn.endswith(".py"):
         m = importlib.import_module("props." + fn[:-3])
+        if getattr(m, "DISABLED", False):
+            continue
+        ok, msg = check.build_go(m)
+        if not ok:
+            print(msg); sys.exit(1)
         ok, out = check.gen_facts(m)
         if not ok:
             print(out); sys.exit(1)
